@@ -98,6 +98,20 @@ def handle (op : String) (j : Json) : Option Json :=
           | none => Json.null
           | some r => Json.mkObj [("succeeded", Json.bool r.succeeded), ("use_nice", Json.bool r.useNice),
                                   ("use_shielding", Json.bool r.useShielding), ("msg", msgJson r.msg)])])
+  | "c20.par_session" => do
+      let prof ← getBool? j "profiling"
+      let rep ← (getObj? j "report").bind parseReport
+      let g ← (getArr? j "events").bind (fun a => a.toList.mapM parseBodyEv)
+      let e ← (getStr? j "ending").bind parseEnding
+      let at? : Option Nat := getNat? j "interrupt_at"
+      let pinned ← getBool? j "pinned"
+      let (evs, ending) := if pinned then parSessionPinned prof rep (fun _ _ => g) at? e
+                           else parSession prof rep (fun _ _ => g) at? e
+      pure (Json.mkObj [("trace", Json.arr (evs.map evJson).toArray), ("ending", endingJson ending)])
+  | "c20.interleave" => do
+      let sched ← (getArr? j "schedule").bind (fun a => a.toList.mapM asNat?)
+      let ws ← (getArr? j "workers").bind (fun a => a.toList.mapM (fun w => (asArr? w).bind (fun b => b.toList.mapM parseBodyEv)))
+      pure (Json.arr ((interleave sched ws).map bodyEvJson).toArray)
   | "c20.wrap" => do
       let c : WrapCfg := {
         useNice := ← getBool? j "use_nice"
